@@ -218,6 +218,57 @@ def gen_system(rng, thorough):
             "pattern": pattern, "shape": shape, "cond": cond, "nswaps": nsw, "tie": tie, "malformed": None}
 
 
+def scale_entry(e, f):
+    re_, vs, du, dd = e
+    return (re_ * f, vs, [x * f for x in du], [[x * f for x in row] for row in dd])
+
+
+def apply_scaling(rng, s):
+    """Magnitude diversity: global / per-row / per-column powers of ten (entries far from 1 in absolute
+    terms, as with rows built from POSIX-timestamp knots).  Exponent ranges are reduced where squares
+    (least squares) or cubes (Dual2 reciprocal) of the entries are formed, so that everything stays
+    finite (well inside 1e-250 .. 1e250)."""
+    r, c = s["r"], s["c"]
+    g, rw, cl = 25.0, 20.0, 20.0
+    if s["kind"] == 2 and s["op"] == 0:
+        g, rw, cl = 15.0, 12.0, 12.0
+    if s["lsq"]:
+        g, rw, cl = g / 4, rw / 4, cl / 4
+    A = [list(s["A"][i * c:(i + 1) * c]) for i in range(r)]
+    b = list(s["b"])
+    classes = []
+    u = rng.random()
+    kinds = [["global"], ["rows"], ["columns"], ["rows", "columns"], ["global", "rows"]][min(4, int(u * 5))]
+    if "global" in kinds:
+        f = 10.0 ** rng.uniform(-g, g)
+        A = [[scale_entry(e, f) for e in row] for row in A]
+        if rng.random() < 0.5:
+            b = [scale_entry(e, f) for e in b]
+            classes.append("global (A and b)")
+        else:
+            classes.append("global (A only)")
+    if "rows" in kinds:
+        rows = rng.sample(range(r), rng.randint(1, max(1, r // 2 + 1)))
+        for i in rows:
+            f = 10.0 ** rng.uniform(-rw, rw)
+            A[i] = [scale_entry(e, f) for e in A[i]]
+            if i < len(b):
+                b[i] = scale_entry(b[i], f)
+        classes.append("rows of (A|b)")
+    if "columns" in kinds:
+        cols = rng.sample(range(c), rng.randint(1, max(1, c // 2 + 1)))
+        for j in cols:
+            f = 10.0 ** rng.uniform(-cl, cl)
+            for i in range(r):
+                A[i][j] = scale_entry(A[i][j], f)
+        classes.append("columns of A")
+    t = dict(s)
+    t["A"] = [e for row in A for e in row]
+    t["b"] = b
+    t["scaling"] = classes
+    return t
+
+
 def gen_malformed(rng, thorough):
     s = gen_system(rng, thorough)
     r, c = s["r"], s["c"]
@@ -383,11 +434,46 @@ def vec_close(va, vb, rtol=RTOL):
     return True
 
 
+def orders(kind, m):
+    """index ranges of the value / first-order / second-order components of one entry"""
+    if kind == 0:
+        return [(0, 1)]
+    if kind == 1:
+        return [(0, 1), (1, 1 + m)]
+    return [(0, 1), (1, 1 + m), (1 + m, 1 + m + m * m)]
+
+
+def vec_close_scaled(va, vb, kind, m, noise_rtol):
+    """Entries far from 1 in magnitude: no absolute floor.  A component agrees if it is relatively close
+    (1e-9), or - only where the model is not bit-exact (noise_rtol > 0: Dual2 division through powf) - if
+    the difference is small against the largest component of the same order in the same entry."""
+    if len(va) != len(vb):
+        return False
+    for ea, eb in zip(va, vb):
+        if len(ea) != len(eb):
+            return False
+        for lo, hi in orders(kind, m):
+            big = max([abs(x) for x in ea[lo:hi] + eb[lo:hi] if x == x and abs(x) != float("inf")] + [0.0])
+            for x, y in zip(ea[lo:hi], eb[lo:hi]):
+                if fclass(x) != fclass(y):
+                    return False
+                if fclass(x) != "fin" or x == y:
+                    continue
+                d = abs(x - y)
+                if d <= RTOL * max(abs(x), abs(y)):
+                    continue
+                if noise_rtol and d <= noise_rtol * big:
+                    continue
+                return False
+    return True
+
+
 def describe(s, op=None):
     op = s["op"] if op is None else op
     return "%s on a %dx%d system, entries %s%s, allow_lsq=%s, pattern %s%s" % (
         OPNAME[op], s["r"], s["c"], ("f64 matrix / %s rhs" % KINDS[s["kind"]]) if op in (1, 3, 8) else KINDS[s["kind"]],
-        "", s["lsq"], s["pattern"], (", malformed: %s" % s["malformed"]) if s["malformed"] else "")
+        "", s["lsq"], s["pattern"], ((", malformed: %s" % s["malformed"]) if s["malformed"] else "") +
+        ((", scaled: %s" % "+".join(s["scaling"])) if s.get("scaling") else ""))
 
 
 def readable(s):
@@ -415,7 +501,9 @@ def run(ctx):
                 "f64 matrix with f64 / Dual / Dual2 rhs for fdsolve; integer-valued matrices with cond_1 <= 1e4 (of A, or of A^T A "
                 "for least squares) in 7 sparsity patterns forcing pivoting (zero diagonal, permuted triangular, late swap, ties in "
                 "|value|, sparse, zero first column on top, dense); variables from a 6-name alphabet tagged on entries of A and b "
-                "(overlapping, 1-3 names per entry, optional absent name); malformed stream: singular matrices, non-square without "
+                "(overlapping, 1-3 names per entry, optional absent name); ~23% of the systems rescaled far from magnitude 1 (global factor "
+                "10^U(-25,25) on A with or without b, rows of (A|b) by 10^U(-20,20), columns of A likewise; reduced ranges where squares / "
+                "cubes are formed) and compared without absolute floor; malformed stream: singular matrices, non-square without "
                 "allow_lsq, wrong rhs length, wide least squares. Compared: outcome class and every solution value and derivative BY "
                 "NAME (gradient1 / gradient2 over the given names) within 1e-9 relative. Non-trivial = a solved system whose pivoting "
                 "swapped rows or met a tie, or whose solution has >= 2 non-zero derivative components; distinct by encoded case.")
@@ -454,13 +542,16 @@ def run(ctx):
             systems.append(gen_mul_case(rng))
         else:
             s = gen_system(rng, th)
+            if rng.random() < 0.23:
+                systems.append(apply_scaling(rng, s))
+                continue
             systems.append(s)
             if rng.random() < 0.15 and s["r"] >= 2:
                 systems.append(permuted(rng, s))
                 pairs.append((len(systems) - 2, len(systems) - 1))
     cases = [enc_case(s) for s in systems]
     # the residual oracle runs on the real code only
-    oracle_idx = [i for i, s in enumerate(systems) if s["op"] in (0, 1) and not s["malformed"]]
+    oracle_idx = [i for i, s in enumerate(systems) if s["op"] in (0, 1) and not s["malformed"] and not s.get("scaling")]
     oracle_cases = [enc_case(systems[i], op=7 if systems[i]["op"] == 0 else 8) for i in oracle_idx]
     impl = run_harness("linalg", [line(c) for c in cases + oracle_cases])
     impl_or = impl[len(cases):]
@@ -492,8 +583,18 @@ def run(ctx):
         noise = s["malformed"] in SINGULAR and kind == 2 and op == 0
         if noise:
             ctx.count("singular Dual2 systems compared by outcome class only")
+        if s.get("scaling"):
+            for cl in s["scaling"]:
+                ctx.count("scaling: %s" % cl)
+        elif s["shape"] != "mul":
+            ctx.count("scaling: none")
         if ok and ca == "Ok" and not noise:
-            ok = len(va) == len(vb) and all(vec_close(x, y) for x, y in zip(va, vb))
+            if s.get("scaling"):
+                # f64 / Dual / fdsolve are bit-exact in the model; Dual2 division goes through powf
+                nr = 1e-7 if (kind == 2 and op == 0) else 0.0
+                ok = len(va) == len(vb) and all(vec_close_scaled(x, y, kind, m, nr) for x, y in zip(va, vb))
+            else:
+                ok = len(va) == len(vb) and all(vec_close(x, y) for x, y in zip(va, vb))
         if not ok:
             ctx.violation(
                 "the implementation and the proved model disagree on %s: implementation %s, model %s (solution values and "
